@@ -17,7 +17,7 @@ CASES_PER_FILE = 120
 CASE_FILE_BYTES = 150000
 CASE_TIMEOUT = 20
 TIERS = {"quick": {"n": 1800}, "thorough": {"n": 40000}}
-RULE = ("histories of 1-50 (thorough: up to 120) public dict-API calls (item get/set/del, get, setdefault, update "
+RULE = ("[2 % of the cases are Spec validation: same lookups driven through functools.lru_cache(max_size)(on_miss), observations taken from it, so that Spec and model are compared with an independent standard-library LRU] histories of 1-50 (thorough: up to 120) public dict-API calls (item get/set/del, get, setdefault, update "
         "with dict/mapping/pairs/generator + kwargs, |=, pop, popitem, clear, copy, in, len, iteration, items, "
         "==/!= against dicts, caches and non-mappings, update(self, **kw), update(other cache)) on an LRI or LRU with max_size 1-4 (sometimes 5-8, thorough also 128), 3-7 "
         "keys, on_miss None or a recording function, optional constructor values; ops are spread over the original "
@@ -106,9 +106,22 @@ def gen_ctor_case(rng):
             "init_kind": "none", "full": "all", "ops": []}
 
 
+def gen_specval_case(rng, tier):
+    """Spec validation (testing the Spec, not boltons): the observations come from the standard library's
+    functools.lru_cache(maxsize)(on_miss) driven by the same lookups; Spec and model must accept them."""
+    mx = rng.choice([1, 2, 2, 3, 3, 4, 6])
+    keys = rng.sample(range(len(KEYS)), min(mx + rng.choice([1, 2, 3]), len(KEYS)))
+    return {"cls": "LRU", "max": mx, "ref": "functools.lru_cache",
+            "on_miss": {"table": [[k, rng.randrange(1, 12)] for k in keys], "default": 1},
+            "init": [], "init_kind": "none", "full": "none",
+            "ops": [{"op": "getitem", "i": 0, "k": rng.choice(keys)} for _ in range(rng.randint(1, 40))]}
+
+
 def gen_case(rng, tier):
     if rng.random() < 0.015:
         return gen_ctor_case(rng)
+    if rng.random() < 0.02:
+        return gen_specval_case(rng, tier)
     big = tier == "thorough" and rng.random() < 0.04
     if big:
         mx = 128
@@ -284,7 +297,31 @@ def resolve(i, ncaches):
     return i % ncaches
 
 
+def run_reference(case):
+    """functools.lru_cache as an independent LRU with on_miss: c[k] == cached_f(k)."""
+    import functools
+    table = {key(k): v for k, v in case["on_miss"]["table"]}
+    dflt = case["on_miss"]["default"]
+    calls = []
+
+    def f(k):
+        calls.append(ktok(k))
+        return val(table.get(k, dflt))
+    cached = functools.lru_cache(maxsize=case["max"])(f)
+    obs = []
+    for op in case["ops"]:
+        assert op["op"] == "getitem"
+        del calls[:]
+        r = cached(key(op["k"]))
+        info = cached.cache_info()
+        obs.append({"out": ["ok", "val", vtok(r)], "len": info.currsize, "hit": info.hits, "miss": info.misses,
+                    "soft": 0, "calls": list(calls), "items": None})
+    return obs
+
+
 def run_impl(case):
+    if case.get("ref") == "functools.lru_cache":
+        return run_reference(case)
     from boltons.cacheutils import LRI, LRU
     cls = {"LRI": LRI, "LRU": LRU}[case["cls"]]
     calls = []
@@ -568,6 +605,8 @@ def distribution(d, case, obs):
     def inc(group, k, by=1):
         d.setdefault(group, {})
         d[group][str(k)] = d[group].get(str(k), 0) + by
+    if case.get("ref"):
+        inc("spec_validation", case["ref"])
     if not case["ops"] and (case["max"] <= 0 or case.get("on_miss_bad")):
         inc("constructor", obs[0]["ctor"] if obs and "ctor" in obs[0] else "constructed")
     inc("class", case["cls"])
